@@ -1,6 +1,6 @@
 (* C17: counters are exact, reference counts are exact, nothing freed is reachable -- in every state reachable by
    core actions (requests without require-ack / millisecond flags and without value frames, clock advances, sweeps,
-   role changes) as long as fewer than 2^24 lock records have been allocated (core_run). *)
+   role changes) in runs of fewer than 2^24 - 2 actions (core). *)
 From Coq Require Import List NArith ZArith String Bool Lia.
 From Slock Require Import Engine.Types Engine.Queues Engine.Timers Engine.Engine Engine.Engine2 Engine.InvDef Engine.InvMain Engine.InvProps.
 Import ListNotations.
@@ -15,7 +15,7 @@ Definition c17_wait : list action :=
 
 (* LockedCount = sum over keys of `locked`; WaitCount = number of live waiters (stored records not yet answered);
    KeyCount = number of key managers *)
-Theorem C17_counters_exact : forall t0 a acts, core_run (init_db t0 a) acts ->
+Theorem C17_counters_exact : forall t0 a acts, core acts ->
   n_locked (cnt (fst (run (init_db t0 a) acts))) = Z.of_N (sum_locked (mgrs (fst (run (init_db t0 a) acts))))
   /\ n_wait (cnt (fst (run (init_db t0 a) acts))) = Z.of_nat (live_cnt (store (fst (run (init_db t0 a) acts))))
   /\ n_key (cnt (fst (run (init_db t0 a) acts))) = Z.of_nat (length (mgrs (fst (run (init_db t0 a) acts))))
@@ -24,14 +24,14 @@ Proof. exact reach_counters. Qed.
 Goal True. idtac "ASSUMPTIONS-OF C17_counters_exact". Abort.
 Print Assumptions C17_counters_exact.
 Example C17_counters_exact_nonvacuous :
-  core_run (init_db 1000000 1) c17_demo
+  core c17_demo
   /\ n_locked (cnt (fst (run (init_db 1000000 1) c17_demo))) = 2%Z
   /\ n_key (cnt (fst (run (init_db 1000000 1) c17_demo))) = 2%Z
   /\ n_wait (cnt (fst (run (init_db 1000000 1) c17_wait))) = 1%Z.
-Proof. split; [split; [repeat constructor|repeat split; vm_compute; reflexivity]|repeat split; vm_compute; reflexivity]. Qed.
+Proof. split; [split; [repeat constructor|vm_compute; reflexivity]|repeat split; vm_compute; reflexivity]. Qed.
 
 (* a live waiter is in the wait queue of its key exactly once, holds nothing and is in no holder list *)
-Theorem C17_live_waiters : forall t0 a acts, core_run (init_db t0 a) acts ->
+Theorem C17_live_waiters : forall t0 a acts, core acts ->
   forall r l, aget (store (fst (run (init_db t0 a) acts))) r = Some l -> l_timeouted l = false ->
     occ r (m_wq (getm (fst (run (init_db t0 a) acts)) (l_key l))) = 1%nat /\ dead_waiter l = false /\ l_locked l = 0
     /\ occ r (holders (getm (fst (run (init_db t0 a) acts)) (l_key l))) = O.
@@ -44,7 +44,7 @@ Example C17_live_waiters_nonvacuous :
 Proof. eexists. split; vm_compute; reflexivity. Qed.
 
 (* refCount of every stored lock record = number of structures holding it *)
-Theorem C17_refcount_exact : forall t0 a acts, core_run (init_db t0 a) acts ->
+Theorem C17_refcount_exact : forall t0 a acts, core acts ->
   forall r l, aget (store (fst (run (init_db t0 a) acts))) r = Some l ->
     N.to_nat (l_refc l) = refs_to (fst (run (init_db t0 a) acts)) r (l_key l)
     /\ aget (mgrs (fst (run (init_db t0 a) acts))) (l_key l) <> None /\ r < next (fst (run (init_db t0 a) acts)).
@@ -57,7 +57,7 @@ Proof. eexists. split; vm_compute; reflexivity. Qed.
 
 (* every reference held by a wheel, a long table, a holder list or a wait queue points at a stored (not freed) record
    of the right key: no use after free is possible from these structures *)
-Theorem C17_no_dangling_reference : forall t0 a acts, core_run (init_db t0 a) acts ->
+Theorem C17_no_dangling_reference : forall t0 a acts, core acts ->
   (forall r, In r (wrefs (twheel (fst (run (init_db t0 a) acts))) ++ wrefs (tlong (fst (run (init_db t0 a) acts)))
                    ++ wrefs (ewheel (fst (run (init_db t0 a) acts))) ++ wrefs (elong (fst (run (init_db t0 a) acts)))) ->
              aget (store (fst (run (init_db t0 a) acts))) r <> None)
@@ -71,7 +71,7 @@ Example C17_no_dangling_reference_nonvacuous :
 Proof. split; vm_compute; reflexivity. Qed.
 
 (* LockManager.refCount = number of stored records of the key; a key without manager has no record *)
-Theorem C17_manager_refcount : forall t0 a acts, core_run (init_db t0 a) acts ->
+Theorem C17_manager_refcount : forall t0 a acts, core acts ->
   forall k, match aget (mgrs (fst (run (init_db t0 a) acts))) k with
             | Some m => N.to_nat (m_ref m) = key_cnt k (store (fst (run (init_db t0 a) acts)))
             | None => key_cnt k (store (fst (run (init_db t0 a) acts))) = O
@@ -82,3 +82,38 @@ Print Assumptions C17_manager_refcount.
 Example C17_manager_refcount_nonvacuous :
   exists m, aget (mgrs (fst (run (init_db 1000000 1) c17_demo))) 7 = Some m /\ m_ref m = 2.
 Proof. eexists. split; vm_compute; reflexivity. Qed.
+
+(* drained states (partial): once every lock record has been freed, LockedCount = WaitCount = 0, no wheel / long table
+   holds a reference and every key manager still present is idle.  (That no key manager is then present at all, i.e.
+   KeyCount = 0, needs "every manager has a record", which holds on every tested history but is not proved.) *)
+Theorem C17_drained : forall t0 a acts, core acts -> store (fst (run (init_db t0 a) acts)) = [] ->
+  n_locked (cnt (fst (run (init_db t0 a) acts))) = 0%Z /\ n_wait (cnt (fst (run (init_db t0 a) acts))) = 0%Z
+  /\ wrefs (twheel (fst (run (init_db t0 a) acts))) = [] /\ wrefs (tlong (fst (run (init_db t0 a) acts))) = []
+  /\ wrefs (ewheel (fst (run (init_db t0 a) acts))) = [] /\ wrefs (elong (fst (run (init_db t0 a) acts))) = []
+  /\ forall k m, aget (mgrs (fst (run (init_db t0 a) acts))) k = Some m ->
+       m_locked m = 0 /\ holders m = [] /\ m_wq m = [] /\ m_ref m = 0.
+Proof. exact reach_drained. Qed.
+Goal True. idtac "ASSUMPTIONS-OF C17_drained". Abort.
+Print Assumptions C17_drained.
+Definition c17_drain : list action :=
+  [AReq 1 (make_cmd true 1 0 101 7 0 5 0 3 0 0 None); AReq 2 (make_cmd true 2 0 102 7 0 2 0 3 0 0 None);
+   AAdvance 4; ASweepT; ASweepE; AAdvance 4; ASweepT; ASweepE; AAdvance 4; ASweepT; ASweepE].
+Example C17_drained_nonvacuous :
+  core c17_drain /\ store (fst (run (init_db 1000000 1) c17_drain)) = [] /\ mgrs (fst (run (init_db 1000000 1) c17_drain)) = []
+  /\ n_key (cnt (fst (run (init_db 1000000 1) c17_drain))) = 0%Z.
+Proof. split; [split; [repeat constructor|vm_compute; reflexivity]|repeat split; vm_compute; reflexivity]. Qed.
+
+(* Outside the core subset the statements above are FALSE of the model (and of the Go code it mirrors): re-entrant
+   re-locks with the require-ack flag register acknowledgements for which no reference is taken; acknowledging them
+   frees a live hold (depth 3) together with its key manager and leaves the expiry wheel pointing at the freed record,
+   which doExpried then uses (EPanic "uaf:doExpried"). *)
+Theorem C17_refuted_reentrant_ack :
+  let '(s, evs) := run (init_db 1000000 0) ack_uaf_history in
+  existsb is_uaf (last evs []) = true
+  /\ (let s5 := fst (run (init_db 1000000 0) (firstn 5 ack_uaf_history)) in
+      aget (store s5) 1 = None /\ aget (mgrs s5) 7 = None /\ wrefs (ewheel s5) = [1])
+  /\ (let s3 := fst (run (init_db 1000000 0) (firstn 3 ack_uaf_history)) in
+      m_locked (getm s3 7) = 3 /\ m_cur (getm s3 7) = Some 1).
+Proof. exact C11_refuted_reentrant_ack. Qed.
+Goal True. idtac "ASSUMPTIONS-OF C17_refuted_reentrant_ack". Abort.
+Print Assumptions C17_refuted_reentrant_ack.
